@@ -49,7 +49,8 @@ def harness_dir():
     tag = hashlib.sha1(os.path.realpath(REPO).encode()).hexdigest()[:10]
     dst = os.path.join("/tmp", "pvh-" + tag)
     os.makedirs(dst, exist_ok=True)
-    subprocess.run(["rsync", "-a", "--delete", "--exclude", "target", src + "/", dst + "/"], check=True)
+    # (penne-target: the compiler binary pipeline_common.build_penne puts next to the copy -- must survive a re-sync)
+    subprocess.run(["rsync", "-a", "--delete", "--exclude", "target", "--exclude", "penne-target", src + "/", dst + "/"], check=True)
     toml = open(os.path.join(dst, "Cargo.toml")).read()
     toml = toml.replace('path = "/repo"', 'path = "%s"' % os.path.realpath(REPO))
     open(os.path.join(dst, "Cargo.toml"), "w").write(toml)
